@@ -3,7 +3,7 @@ C07 — parameterized capability strings evaluate per terminfo(5).
 Model: Tcell.Model.TParm (byte machine with the skip register of terminfo.go:340-589; `pinned` mirrors the tree,
 `repaired` = with fixes/C07-*.patch).  Reference: Tcell.Spec.Terminfo5 (lexer, parser, AST, structural evaluator).
 -/
-import Tcell.Lemmas.TParm
+import Tcell.Lemmas.TParmFmt
 import Tcell.Gen.TerminfoDB
 namespace Tcell.Props.C07
 open Tcell Tcell.TParm Tcell.Spec.Terminfo5
@@ -55,14 +55,11 @@ example : run pinned ([37, 112, 37].length + 100) [37, 112, 37] {} .emit = run p
 
 /-! ### refinement of the terminfo(5) reference -/
 
-/-- PARTIAL (what is proved of `WellFormed s → ⟦TParm⟧ s p sv = Spec.eval (parse s) p sv`): for every *straight-line*
-program – any sequence of valid tokens other than `%{n}`, printf formats, `%A`/`%O` and the conditional markers – any
-parameters and any static variables, both the pinned and the repaired machine compute exactly what the terminfo(5)
-reference computes (output and static variables).
-Missing, covered only by the differential correspondence and the reference oracle: `%{n}` and printf tokens (need
-the decimal round-trip / C-printf = Go-Sprintf lemmas) and conditionals of nesting depth ≤ 1 for the pinned machine
-resp. all depths for the repaired one (the skip lemma of DESIGN.md A.2).  The full statement is false for the
-pinned machine (`nested_cond_counterexample`). -/
+/-- Straight-line special case, kept because it holds for BOTH variants without any side condition: for every
+sequence of valid tokens other than `%{n}`, printf formats, `%A`/`%O` and the conditional markers, any parameters and
+any static variables, the pinned and the repaired machine compute exactly what the terminfo(5) reference computes.
+(The full statements are `tparm_refines_spec` for the repaired and `tparm_pinned_refines_spec` for the pinned
+machine below; the full statement is false for the pinned machine, `nested_cond_counterexample`.) -/
 theorem tparm_refines_spec_partial (v : Variant) (ts : List Tok)
     (h : ∀ t ∈ ts, simpleTok t = true ∧ t.valid = true) (params : List Value) (sv : Vars) :
     tparmV v (ofToks ts).render params sv = Spec.Terminfo5.tparm (ofToks ts) params sv := by
@@ -85,6 +82,75 @@ theorem parse_sound (s : Bytes) (a : Prog) (h : parse s = some a) : a.render = s
         cases h; exact ⟨hv.2, hv.1⟩
       · exact absurd h (by simp)
     · exact absurd h (by simp)
+
+/-! ### the full refinement (DESIGN.md A.2) -/
+
+/-- the machine state `TParm` starts in -/
+def st0 (params : List Value) (sv : Vars) : St := { params := pad9 params, svars := sv }
+
+/-- Refinement with Go's formatter, no side condition: for EVERY well-formed program (`parse s = some a`: balanced
+`%? … %t … %e … %;` with else-if chains and arbitrary nesting, every token of terminfo(5) including `%{n}`, `%'c'`,
+`%l`, `%P`/`%g`, `%i`, all arithmetic/bit/logical/comparison operators and printf formats
+`%[:][flags][width][.prec][doxXsc]`), all parameters and all static variables, the repaired byte-level skip-register
+machine (= terminfo.go at /repo HEAD) computes exactly what the *structural* evaluator computes on the parse tree –
+output bytes and static variables – where a printf token means "pop, format with Go's `fmt`, append" (`semM`).
+The skip register, the nesting counter and the byte-level scanning are gone from the right-hand side. -/
+theorem tparm_refines_ast (s : Bytes) (a : Prog) (h : parse s = some a) (params : List Value) (sv : Vars) :
+    tparmV repaired s params sv =
+      ((a.evalG semM Spec.Terminfo5.test (st0 params sv)).out, (a.evalG semM Spec.Terminfo5.test (st0 params sv)).svars) := by
+  obtain ⟨hr, hv⟩ := parse_sound s a h
+  have := run_render repaired a hv (Prog.all_true a _ tokOk_repaired) (Or.inl rfl) (st0 params sv)
+  rw [hr] at this
+  simp only [tparmV]
+  rw [show ({ params := pad9 params, svars := sv } : St) = st0 params sv from rfl, this]
+
+/-- **`tparm_refines_spec`**: for every well-formed program, all parameters and all static variables, the repaired
+machine returns exactly what the terminfo(5) reference returns (output bytes AND resulting static variables) on
+every run the reference specifies.  `specified a params sv` is the reference's own judgement domain: it is `true`
+unless the run executes a printf token in a state where C printf(3) leaves the result undefined or dependent on the
+C `int` width (negative or `+`/space-flagged `%o %x %X`, `#` with value 0 or with the `0` flag, `%c` outside 0..127,
+`0` flag on `%s`/`%c`, `%+.0d` of 0, non-ASCII `%s` under width/precision) – there Go's `fmt` and C differ or C says
+nothing and neither the reference nor the oracle judge.  For programs without printf tokens the hypothesis is always
+true (`tparm_refines_spec_noformat`); `tparm_refines_ast` is the statement without it.
+Proof: skip lemma + induction on the AST (`Lemmas/TParmRefine`), Go-`fmt` = C-printf on the specified domain for all
+flags, widths and precisions (`Lemmas/TParmFmt.semM_eq_sem`). -/
+theorem tparm_refines_spec (s : Bytes) (a : Prog) (h : parse s = some a) (params : List Value) (sv : Vars)
+    (hs : specified a params sv = true) :
+    tparmV repaired s params sv = Spec.Terminfo5.tparm a params sv := by
+  rw [tparm_refines_ast s a h params sv]
+  have := evalG_semM_eq a (parse_sound s a h).2 params sv hs
+  simp only [st0, Spec.Terminfo5.tparm, this]
+
+/-- the hypotheses are satisfiable on a program with an else-if chain, a nested conditional in a skipped branch,
+`%{n}`, a comparison and a printf format: `%?%p1%{8}%<%t%?%p2%tA%eB%;%e%p1%{16}%<%tC%e%p1%03d%;` with (20, 1) -/
+example : ∃ a, parse [37,63,37,112,49,37,123,56,125,37,60,37,116,37,63,37,112,50,37,116,65,37,101,66,37,59,37,101,
+      37,112,49,37,123,49,54,125,37,60,37,116,67,37,101,37,112,49,37,48,51,100,37,59] = some a ∧
+    specified a [.int 20, .int 1] noVars = true ∧ (Spec.Terminfo5.tparm a [.int 20, .int 1] noVars).1 = [48,50,48] := by
+  decide
+
+/-- … and without any side condition for programs that contain no printf-format token (every other token of
+terminfo(5) is allowed, any nesting). -/
+theorem tparm_refines_spec_noformat (s : Bytes) (a : Prog) (h : parse s = some a) (hn : a.all notFmt = true)
+    (params : List Value) (sv : Vars) :
+    tparmV repaired s params sv = Spec.Terminfo5.tparm a params sv :=
+  tparm_refines_spec s a h params sv (specified_of_notFmt a (parse_sound s a h).2 hn params sv)
+
+example : ∃ a, parse nestedProg = some a ∧ a.all notFmt = true := by decide
+
+/-- The pinned machine (no nesting counter, no `%A`/`%O`, no `#`/space flag without a colon) refines the reference
+on the class the database uses: no conditional nested inside another conditional (`depth ≤ 1`; else-if chains
+are fine) and only tokens the pinned code implements.  Outside this class it need not (`nested_cond_counterexample`,
+`logical_and_counterexample`, `format_flag_counterexample`). -/
+theorem tparm_pinned_refines_spec (s : Bytes) (a : Prog) (h : parse s = some a) (hd : a.depth ≤ 1)
+    (hp : a.all Tok.pinnedOk = true) (params : List Value) (sv : Vars) (hs : specified a params sv = true) :
+    tparmV pinned s params sv = Spec.Terminfo5.tparm a params sv := by
+  obtain ⟨hr, hv⟩ := parse_sound s a h
+  have := run_render pinned a hv (Prog.all_imp _ _ tokOk_pinned a hp) (Or.inr hd) (st0 params sv)
+  rw [hr] at this
+  have h2 := evalG_semM_eq a hv params sv hs
+  simp only [tparmV, Spec.Terminfo5.tparm]
+  rw [show ({ params := pad9 params, svars := sv } : St) = st0 params sv from rfl, this]
+  simp only [st0, h2]
 
 /-! ### database layer (kernel evaluation over the regenerated entries) -/
 
@@ -126,6 +192,44 @@ theorem hardcoded_strings_wellformed : ∀ f ∈ hardCoded, okFor f.1 f.2 = true
   have h : (hardCoded.all fun f => okFor f.1 f.2) = true := by decide +kernel
   intro f hf
   exact List.all_eq_true.mp h f hf
+
+theorem okFor_refines (s : Bytes) (n : Nat) (h : okFor s n = true) :
+    ∃ a, parse s = some a ∧ ∀ (v : Variant), v = pinned ∨ v = repaired → ∀ (params : List Value) (sv : Vars),
+      specified a params sv = true → tparmV v s params sv = Spec.Terminfo5.tparm a params sv := by
+  unfold okFor at h
+  cases hp : parse s with
+  | none => simp [hp] at h
+  | some a =>
+    simp only [hp, Bool.and_eq_true, decide_eq_true_eq] at h
+    refine ⟨a, rfl, ?_⟩
+    intro v hv params sv hs
+    rcases hv with rfl | rfl
+    · exact tparm_pinned_refines_spec s a hp h.1.2 h.2 params sv hs
+    · exact tparm_refines_spec s a hp params sv hs
+
+/-- **Corollary (every string tcell ever evaluates).**  For every parameterized string of every built-in entry
+(`Gen.db`, regenerated from the Go source) and every sequence tscreen.go hard-codes, the string parses and the
+refinement applies: for all parameters and static variables, both the pinned and the repaired machine return what
+the terminfo(5) reference returns (on every run the reference specifies; only the hard-coded `%02x` cursor-colour
+string and no database string contains a printf token). -/
+theorem db_strings_refine : ∀ e ∈ Gen.db, ∀ f ∈ paramFields e,
+    ∃ a, parse f.1 = some a ∧ ∀ (v : Variant), v = pinned ∨ v = repaired → ∀ (params : List Value) (sv : Vars),
+      specified a params sv = true → tparmV v f.1 params sv = Spec.Terminfo5.tparm a params sv :=
+  fun e he f hf => okFor_refines f.1 f.2 (db_strings_wellformed e he f hf)
+
+theorem hardcoded_strings_refine : ∀ f ∈ hardCoded,
+    ∃ a, parse f.1 = some a ∧ ∀ (v : Variant), v = pinned ∨ v = repaired → ∀ (params : List Value) (sv : Vars),
+      specified a params sv = true → tparmV v f.1 params sv = Spec.Terminfo5.tparm a params sv :=
+  fun f hf => okFor_refines f.1 f.2 (hardcoded_strings_wellformed f hf)
+
+/-- no database string contains a printf-format token, so for them `specified` holds on every run -/
+theorem db_strings_noformat : ∀ e ∈ Gen.db, ∀ f ∈ paramFields e,
+    ∀ a, parse f.1 = some a → a.all notFmt = true := by
+  have h : (Gen.db.all fun e => (paramFields e).all fun f =>
+      match parse f.1 with | some a => a.all notFmt | none => true) = true := by decide +kernel
+  intro e he f hf a ha
+  have := List.all_eq_true.mp (List.all_eq_true.mp h e he) f hf
+  simpa [ha] using this
 
 example : Gen.db ≠ [] ∧ okFor [27,91,37,105,37,112,49,37,100,59,37,112,50,37,100,72] 2 = true := by decide +kernel
 
